@@ -133,7 +133,7 @@ type lateCall struct {
 }
 
 type replayRec struct {
-	Mode    string   `json:"mode"` // det | stress
+	Mode    string   `json:"mode"` // det | life | stress
 	CfgSeed int64    `json:"cfg_seed,omitempty"`
 	Index   int      `json:"index,omitempty"`
 	Trace   []string `json:"trace,omitempty"`
@@ -169,6 +169,7 @@ type scen struct {
 	viols   map[string]bool
 	opened  []string
 	flags   map[string]bool
+	mode    string // replay mode of the family that runs on this scen ("" = det)
 }
 
 // orderBase: ordinary small orders (ties, negatives, gaps; 0 is also what the
@@ -253,7 +254,11 @@ func (s *scen) violation(fp, what string) {
 	}
 	s.viols[fp] = true
 	s.tr("VIOLATION %s: %s", fp, what)
-	s.c.Violation(fp, what, replayRec{Mode: "det", CfgSeed: s.seed, Index: s.idx, Trace: append([]string(nil), s.trace...)})
+	mode := s.mode
+	if mode == "" {
+		mode = "det"
+	}
+	s.c.Violation(fp, what, replayRec{Mode: mode, CfgSeed: s.seed, Index: s.idx, Trace: append([]string(nil), s.trace...)})
 }
 
 func (s *scen) actor(name string) *gdump.Actor {
